@@ -15,12 +15,12 @@ TABLE = {
  },
  "C17": {
   "technique": "model-based property testing of handle sequences in three differently-configured crates (configuration differential) + multi-thread stress with an exact-count oracle",
-  "text": "Random and enumerated sequences of clone / to_dyn / borrow / borrow_mut / drop over all six Reference variants are interpreted against a one-shared-cell model with a drop counter; the same interpreter source is compiled into the harness, into a downstream crate built with features named alloc/std, into the same crate built without them, and into a second feature-less crate built against rrtk with `alloc` only and against rrtk without any feature (the three cfg-selected definitions of to_dyn! and the cfg-gated halves of Reference), and all must agree with the model (to_dyn! must not panic for the variants it lists); four library crates ({#![no_std], std} x {with, without cfg(feature = alloc/std)}) calling to_dyn! on Ptr / RcRefCell / PtrRwLock References must compile against the std-built rrtk whenever their twin without the calls does (to_dyn! of an already converted Reference included), and the interpreter crate must compile against an alloc-only and a feature-less rrtk whenever its control build without the to_dyn! expansions does; a borrow taken through an Arc-backed Reference must hold its lock while it lives, and a static_* call site evaluated twice must hand out the same untouched object. 2..8 threads perform read-yield-write increments under borrow_mut() of per-thread References over one Arc/static lock and the final count must be exact; the static_* macros are checked for aliasing per call site.",
+  "text": "Random and enumerated sequences of clone / to_dyn / borrow / borrow_mut / drop over all six Reference variants are interpreted against a one-shared-cell model with a drop counter; the same interpreter source is compiled into the harness, into a downstream crate built with features named alloc/std, into the same crate built without them, and into a second feature-less crate built against rrtk with `alloc` only and against rrtk without any feature (the three cfg-selected definitions of to_dyn! and the cfg-gated halves of Reference), and all must agree with the model (to_dyn! must not panic for the variants it lists); four library crates ({#![no_std], std} x {with, without cfg(feature = alloc/std)}) calling to_dyn! on Ptr / RcRefCell / PtrRwLock References must compile against the std-built rrtk whenever their twin without the calls does (to_dyn! of an already converted Reference included), and the interpreter crate must compile against an alloc-only and a feature-less rrtk whenever its control build without the to_dyn! expansions does; a borrow taken through an Arc-backed or pointer-to-lock Reference (for PtrRwLock also after to_dyn!) must hold the caller's lock while it lives, and a static_* call site evaluated twice must hand out the same untouched object. 2..8 threads perform read-yield-write increments under borrow_mut() of per-thread References over one Arc/static lock and the final count must be exact; the static_* macros are checked for aliasing per call site.",
   "note": "The OS owns the schedule, so the stress part is a probabilistic lost-update detector; std's locks are trusted. Raw-pointer variants point at live heap objects owned by the harness.",
  },
  "C15": {
   "technique": "stateful (model-based) property testing: generated operation histories interpreted against the real objects and an explicit model, invariant checked after every step",
-  "text": "Histories of up to 40 operations (set succeeding/failing, follow, stop_following, update with succeeding/failing forwarding, followed-getter output changes, clock advance/error, set_delta, set_time) run against a recording settable, a ConstantGetter, a TimeGetterFromGetter and a GetterFromHistory built with each of its four constructors over an echo history; after every operation the last request, the exact forwarded sequence, return values, the constant getter, the adapter value (history(now+offset) restamped now) and the time getter are compared with the model.",
+  "text": "Histories of up to 40 operations (set succeeding/failing, follow, stop_following, update with succeeding/failing forwarding, followed-getter output changes, clock advance/error, set_delta, set_time) run against a recording settable, a ConstantGetter, a CommandPID, an unconnected and a connected Terminal (both settable halves), a TimeGetterFromGetter and a GetterFromHistory built with each of its four constructors over an echo history; after every operation the last request, the exact forwarded sequence, return values, the constant getter, the adapter value (history(now+offset) restamped now) and the time getter are compared with the model.",
   "note": "i64 clock values and offsets are kept within bounds where no sum overflows, as the quantifier states.",
  },
  "C20": {
@@ -35,7 +35,7 @@ TABLE = {
  },
  "C13": {
   "technique": "model-based property testing over generated device chains and command histories with per-update and end-to-end relay oracles",
-  "text": "Chains of 1..5 inverters, gear trains and axles joined terminal to terminal receive commands with globally distinct timestamps at random terminals over up to 8 rounds and are updated in chain, reverse or random order; after every device update each of its terminals must read the most recently issued command among those present, with issuer timestamp and kind and the value mapped to the reader side within 2 ulp; after an in-order pass the far end must read the globally newest command scaled by the product of ratios; a differential must leave command slots and reads bit-identical.",
+  "text": "Chains of 1..5 inverters, gear trains and axles joined terminal to terminal receive commands with globally distinct timestamps at random terminals (and, in part of the cases, states with other timestamps) over up to 8 rounds and are updated in chain, reverse or random order; after every device update each of its terminals must read the most recently issued command among those present, with issuer timestamp and kind and the value mapped to the reader side within 2 ulp; after an in-order pass the far end must read the globally newest command scaled by the product of ratios; a differential must leave command slots and reads bit-identical.",
   "note": "Chains use devices with >= 2 terminals; a 1-terminal axle is tested alone. Ties only occur between propagated copies of one command.",
  },
  "C06": {
